@@ -1,5 +1,5 @@
 SPECIFICATION Spec
-CONSTANTS PairSrc = "all" CtxU = "ops4" MaxFlow = 3 KeyU = "six"
+CONSTANTS PairSrc = "all" CtxU = "ops4" MaxFlow = 3 KeyU = "six" Writ = "all"
 INVARIANT IsPartition
 INVARIANT SnapshotsRight
 PROPERTY ResetEmpties
@@ -8,6 +8,7 @@ INVARIANT OrderPreserved
 INVARIANT NoEmptyGroup
 INVARIANT PartitionIsEquivalence
 INVARIANT OwnerIsLongest
+INVARIANT WritingIrrelevant
 PROPERTY Stable
 INVARIANT DefaultsOneGroup
 INVARIANT WholeContext
